@@ -53,21 +53,16 @@ pub fn is_name_valid(s: &str,is_vol: bool) -> bool {
 }
 
 pub fn file_name_to_string(fname: [u8;15],len: u8) -> String {
-    // UTF8 failure will cause panic
-    let copy = fname[0..len as usize].to_vec();
-    if let Ok(result) = String::from_utf8(copy) {
-        return result.trim_end().to_string();
-    }
-    panic!("encountered a bad file name");
+    // a damaged directory can hold any length and any bytes (the listing walks unused slots too):
+    // clamp the length to the field and convert lossily rather than panic
+    let len = usize::min(len as usize,fname.len());
+    String::from_utf8_lossy(&fname[0..len]).trim_end().to_string()
 }
 
 pub fn vol_name_to_string(fname: [u8;7],len: u8) -> String {
-    // UTF8 failure will cause panic
-    let copy = fname[0..len as usize].to_vec();
-    if let Ok(result) = String::from_utf8(copy) {
-        return result.trim_end().to_string();
-    }
-    panic!("encountered a bad file name");
+    // see file_name_to_string
+    let len = usize::min(len as usize,fname.len());
+    String::from_utf8_lossy(&fname[0..len]).trim_end().to_string()
 }
 
 pub fn string_to_file_name(s: &str) -> [u8;15] {
